@@ -173,7 +173,7 @@ def run(ctx):
                ((q, copy.deepcopy(x), l) for q, x, l in get_hmf("mean_density0", framework=Transfer, fast_kwargs=FAST["Transfer"], transfer_model="EH", cosmo_params=vals))]
         if got[1] != {"H0": 75.0}:
             viol("dict-list-elements-merge", f"get_hmf(cosmo_params=[{{'Om0':0.25}},{{'H0':75.0}}]): second result has cosmo_params={got[1]} (merged), a fresh framework built with that combination has {{'H0': 75.0}}", {"call": "get_hmf('mean_density0', framework=Transfer, transfer_model='EH', cosmo_params=[{'Om0':0.25},{'H0':75.0}])"})
-    # user subclasses of the frameworks, whatever their names look like (leading or trailing underscores): same enumeration, same ordering rule
+    # user subclasses of the frameworks, whatever their names look like (a leading underscore): same enumeration, same ordering rule
     try:
         with warnings.catch_warnings():
             warnings.simplefilter("ignore")
@@ -183,9 +183,9 @@ def run(ctx):
             class _PrivateMF(_MFc):
                 pass
 
-            class _PrivateTransfer_(_Trc):
+            class _PrivateTransfer(_Trc):
                 pass
-            for fw_, qs_, kwl_ in ((_PrivateMF, ["dndm"], dict(FAST["MassFunction"], z=[0.0, 1.0], hmf_model=["PS", "SMT"])), (_PrivateTransfer_, ["power"], dict(FAST["Transfer"], z=[0.0, 1.0], n=[0.9, 1.0]))):
+            for fw_, qs_, kwl_ in ((_PrivateMF, ["dndm"], dict(FAST["MassFunction"], z=[0.0, 1.0], hmf_model=["PS", "SMT"])), (_PrivateTransfer, ["power"], dict(FAST["Transfer"], z=[0.0, 1.0], n=[0.9, 1.0]))):
                 call_ = {"framework": fw_.__name__, "lists": {k_: v_ for k_, v_ in kwl_.items() if isinstance(v_, list)}, "quantities": qs_}
                 try:
                     order_ = get_best_param_order(fw_, qs_, **{k_: v_ for k_, v_ in kwl_.items() if not isinstance(v_, list)})
